@@ -27,7 +27,7 @@ def findSystem (name : String) : Option (USys K) := (builtinSystems K).find? (·
 
 /-- `em_conversions` as regenerated -/
 def defaultEm : EmTable K :=
-  Generated.rawEm.map fun (n, d, td, p, f) => ⟨n, d, td, p, OfBits.ofBits f⟩
+  Generated.rawEm.map fun (n, d, td, p, f, syms) => ⟨n, d, td, p, OfBits.ofBits f, syms⟩
 
 end inst
 
@@ -58,8 +58,10 @@ def c10Pre : Prefixes Rat := defaultPrefixes Rat
 def c10Lut : Lut Rat := defaultLut Rat
 def c10Em : EmTable Rat := defaultEm Rat
 
+def allPrefixKeys : List String := Generated.rawPrefixes.map (·.1)
+
 /-- is `(d, d')` a documented CGS/SI electromagnetic pair of dimensions -/
-def emCounterpart (d d' : Dim) : Bool := Generated.rawEm.any fun (_, a, b, _, _) => a == d && b == d'
+def emCounterpart (d d' : Dim) : Bool := Generated.rawEm.any fun (_, a, b, _, _, _) => a == d && b == d'
 
 /-- outcome classes of one row of the closure obligation -/
 inductive RowVerdict
@@ -104,8 +106,6 @@ def atomicNames : List String := Generated.rawLut.map (·.1)
 def prefixedNames (ps : List String) : List (String × String × String) :=
   (Generated.rawLut.filter (·.2.prefixable)).flatMap fun (k, _) => ps.map fun p => (p, k, p ++ k)
 
-def allPrefixKeys : List String := Generated.rawPrefixes.map (·.1)
-
 def rawSystem? (name : String) : Option Generated.RawSystem :=
   Generated.rawSystems.find? (·.name == name)
 
@@ -122,6 +122,40 @@ def systemClosedPrefixed (sys : String) (ps : List String) (excl : List (String 
   | none => false
   | some r => (prefixedNames ps).all fun (_, k, n) =>
       (excl.contains (sys, k) && !ok.contains (sys, n)) || rowOkC10 r n
+
+
+/-- one third of the atomic rows (chunked so that each kernel obligation stays small) -/
+def atomicChunk (i : Nat) : List String :=
+  match i with
+  | 0 => atomicNames.take 50
+  | 1 => (atomicNames.drop 50).take 50
+  | _ => atomicNames.drop 100
+
+def systemClosedAtomicChunk (sys : String) (excl : List (String × String)) (i : Nat) : Bool :=
+  match rawSystem? sys with
+  | none => false
+  | some r => (atomicChunk i).all fun k => excl.contains (sys, k) || rowOkC10 r k
+
+/-- the prefixable rows whose dimension is one of `em_conversion_dims` — the only rows on which a
+    prefix changes the route `in_base` takes -/
+def emPrefixable : List String :=
+  (Generated.rawLut.filter fun (_, e) => e.prefixable && Generated.rawEmDims.contains e.dim).map (·.1)
+
+def systemClosedPrefixedEm (sys : String) (ps : List String) (excl : List (String × String)) (ok : List (String × String)) : Bool :=
+  match rawSystem? sys with
+  | none => false
+  | some r => emPrefixable.all fun k => ps.all fun p =>
+      (excl.contains (sys, k) && !ok.contains (sys, p ++ k)) || rowOkC10 r (p ++ k)
+
+/-- the prefixes of the kernel-decided prefixed obligation: an ordinary one-letter prefix, the
+    two-letter `da`, and the three spellings of micro (one of which a built-in system declares a
+    unit with).  All other prefixes take the same route through the code; they are covered
+    exhaustively by the compiled model and the direct oracle in the thorough tier.  (String
+    comparison in the kernel costs ≈0.4 ms, a prefixed EM row ≈1.4 s.) -/
+def prefixHalf (i : Nat) : List String :=
+  (match i with
+   | 0 => ["m", "k", "da"]
+   | _ => ["μ", "µ", "u"]).filter allPrefixKeys.contains
 
 /-- every excluded bare row really fails (an exclusion cannot outlive its finding) -/
 def exclusionsFailAtomic (excl : List (String × String)) : Bool :=
@@ -169,11 +203,16 @@ def baseKeysOk (r : Generated.RawSystem) : Bool :=
 /-- the regenerated EM table pairs up: the partner row exists, points back, carries the
     partner's dimension, and both names are rows of the unit table with those dimensions -/
 def emTableOk : Bool :=
-  Generated.rawEm.all (fun (n, d, td, p, _) =>
-    (Generated.rawEm.any fun (n', d', td', p', _) => n' == p && d' == td && td' == d && p' == n)
-    && (match c10Lut.find? n with | some e => e.dim == d | none => false)
-    && (match c10Lut.find? (nameToSymbol p) with | some e => e.dim == td | none => false))
-  && Generated.rawEmDims == Generated.rawEm.map (fun (_, d, _, _, _) => d)
+  c10Em.all (fun r =>
+    (c10Em.any fun r' => r'.name == r.partnerSym "" && r'.dim == r.toDim && r'.toDim == r.dim && r'.partnerSym "" == r.name)
+    && (match c10Lut.find? r.name with | some e => e.dim == r.dim && e.prefixable | none => false)
+    && (match c10Lut.find? (r.partnerSym "") with | some e => e.dim == r.toDim && e.prefixable | none => false)
+    -- every prefixed partner spelling resolves to a unit of the partner dimension
+    && allPrefixKeys.all (fun p =>
+        match resolve c10Pre c10Lut (r.partnerSym p) with
+        | some e => e.dim == r.toDim
+        | none => false))
+  && Generated.rawEmDims == Generated.rawEm.map (fun (_, d, _, _, _, _) => d)
 
 end checks
 end Unyt
